@@ -100,6 +100,14 @@ pub fn run(ctx: &Ctx) -> i32 {
     std::env::set_var("VERIF_TIER", &ctx.tier);
     let mut rep = Report::new();
     run_cases(ctx, &mut rep, "histories", ctx.cases(300_000, 6_000_000), case);
+    // hostile input against the real daemon process (once: the daemon binary is the same for both harness builds)
+    if ctx.build == "checked" {
+        let workers = (ctx.threads as u64 / 2).clamp(2, 8);
+        let sum = crate::daemon::run_part(ctx, &mut rep, ctx.cases(3 * workers, 60 * workers), workers);
+        if let Some(why) = &sum.skipped {
+            println!("note: end-to-end daemon part skipped ({}); the other parts are unaffected", why);
+        }
+    }
     // replay the committed corpus of saved failing inputs (regression tier)
     let dir = verif_dir().join("corpus").join("C03");
     let mut replayed = 0;
@@ -123,7 +131,7 @@ pub fn run(ctx: &Ctx) -> i32 {
         Finish {
             ctx,
             level: "exploration",
-            rule: "instances with 1-3 ports in every configuration (E2E/P2P, path trace, slave-only, master-only, acceptable-master list, minor version, log intervals, asymmetry; Kalman/Basic/recording filter; daemon forwarder / literal-contract TLV provider); histories of <= 60 (thorough 200) host calls drawn online from: well-formed protocol traffic relative to the port's observed state (so that Slave/Master/Passive/Faulty and half-collected exchanges are reached), boundary-lattice fields (corrections to +-2^63, stepsRemoved to 65535, timestamps over [0,2^63 ns) and wire timestamps to 2^48 s / 2^32-1 ns, TLV sizes around the 960-byte announce room, path traces of 0..200 identities, frames to 2048 bytes), mutated and raw frames, timers in any order, transmit timestamps in any order, BMCA with permuted port order, run-time quality / slave-only changes. Oracle: every call returns (panic hook + catch_unwind), no nested lock acquisition. Non-trivial = some port left Listening and >= 1 frame was accepted by the parser; distinct by op list.",
+            rule: "instances with 1-3 ports in every configuration (E2E/P2P, path trace, slave-only, master-only, acceptable-master list, minor version, log intervals, asymmetry; Kalman/Basic/recording filter; daemon forwarder / literal-contract TLV provider); histories of <= 60 (thorough 200) host calls drawn online from: well-formed protocol traffic relative to the port's observed state (so that Slave/Master/Passive/Faulty and half-collected exchanges are reached), boundary-lattice fields (corrections to +-2^63, stepsRemoved to 65535, timestamps over [0,2^63 ns) and wire timestamps to 2^48 s / 2^32-1 ns, TLV sizes around the 960-byte announce room, path traces of 0..200 identities, frames to 2048 bytes), mutated and raw frames, timers in any order, transmit timestamps in any order, BMCA with permuted port order, run-time quality / slave-only changes. Oracle: every call returns (panic hook + catch_unwind), no nested lock acquisition. Part daemon (checked run only): 200-1500 frames per case thrown at both ports of the real statime daemon (private network namespace, Ethernet and UDP/IPv4 transport): random well-formed messages of every type, mutated frames, raw bytes of 0..1400 octets, and messages the daemon has a use for (from its parent, a requester or itself) with edge values; afterwards the daemon must be alive, back in (Slave, Master), announcing, answering a fresh Delay_Req and its observation socket within 10 s. Non-trivial = some port left Listening and >= 1 frame was accepted by the parser; distinct by op list.",
             assumptions: vec![
                 "host contract honoured by construction: each TimestampContext returned at most once, bmca gets all ports, frames <= 2048 bytes (event channel <= 1024), timestamps < 2^63 ns, |log interval| <= 4, receipt timeout 2..10".into(),
                 format!("build profile: {}", ctx.build),
@@ -136,5 +144,9 @@ pub fn run(ctx: &Ctx) -> i32 {
 
 pub fn replay(ctx: &Ctx, path: &str) -> i32 {
     std::env::set_var("VERIF_TIER", &ctx.tier);
+    let part = std::fs::read_to_string(path).ok().and_then(|s| serde_json::from_str::<serde_json::Value>(&s).ok()).and_then(|v| v["part"].as_str().map(|x| x.to_string()));
+    if part.as_deref() == Some("daemon") {
+        return crate::daemon::replay_part(ctx, path, 3);
+    }
     replay_file(ctx, path, case)
 }
